@@ -94,6 +94,9 @@ def run(rep, tier, seed):
                     "traces_validated_against_impl": len(reqs), "programs": len(cases), "sessions_run": len(reqs),
                     "programs_fully_matched": tally["ok"], "exhaustive": tier == "quick" or len(cases) == len(t.cases),
                     "rule": "every valid program of the bounded MechPlan family (define / mutable define / assign / op-assign over literals, var+k, var+var); each run in two independent interpreter instances (different processes where possible) with three single steps, and with one request for 3 and for 2 steps; stores compared pairwise and with the model after interpretation and after every step"})
+    # ---- impl -> spec on the repository's own programs, over opaque values (MechStepGen / Trace_C19g)
+    from areas import c19g
+    rep.cov["traces_validated_against_impl"] += c19g.run(rep, tier, seed)
     rep.add_samples([{"stmts": [stmt(s) for s in c["prog"]], "s0": c["s0"], "s1": c["s1"], "s3": c["s3"], "noassign": c["noassign"]} for c in cases])
     rep.assumptions += ["TLC 1.8.0", "harness projection", "statement renderer in areas/c19.py",
                         "bare define-from-variable (y := x) is excluded from the family: its cell sharing is judged by C05"]
